@@ -198,8 +198,13 @@ def render_file(f):
     text = "\n".join(L) + "\n"
     if h.get("tabs"):
         text = text.replace("\n    ", "\n\t").replace("\t    ", "\t\t")
+    if h.get("bom"):
+        text = "\ufeff" + text
     if h.get("eol") == "crlf":
         text = text.replace("\n", "\r\n")
+    elif h.get("eol") == "mixed":
+        # a file with both kinds of line ends (every third line ends with CRLF)
+        text = "".join(ln + ("\r\n" if i % 3 == 0 else "\n") for i, ln in enumerate(text.split("\n")[:-1])) + text.split("\n")[-1]
     missing = [sid for sid in sites if sid not in order]
     # sites never referenced by an event are simply not rendered (direct) - allowed
     return text, order
@@ -234,6 +239,10 @@ class SiteCall:
 
 def find_sites(text):
     """outermost snapshot(...) calls in source order.  Raises SyntaxError if the text does not parse."""
+    # a UTF-8 byte order mark is not part of the code (offsets below still count its three bytes)
+    bom = 3 if text.startswith("\ufeff") else 0
+    if bom:
+        text = text[1:]
     tree = ast.parse(text)
     found = []
 
@@ -260,10 +269,10 @@ def find_sites(text):
         line_start.append(line_start[-1] + len(b))
 
     def off(lineno, col):
-        return line_start[lineno - 1] + col
+        return bom + line_start[lineno - 1] + col
 
     out = []
-    data = text.encode("utf-8")
+    data = b"\xef\xbb\xbf"[:bom] + text.encode("utf-8")
     for n in found:
         sc = SiteCall()
         sc.node = n
